@@ -294,8 +294,18 @@ class Repo:
                             out.append(rel)
         return out
 
-    def modules(self, *prefixes, exclude=()):
+    def modules(self, *prefixes, exclude=(), containing=None):
+        """Parsed modules under the prefixes.  ``containing``: only files whose text
+        contains one of these substrings (cheap pre-filter before parsing)."""
+        if isinstance(containing, str):
+            containing = (containing,)
         for rel in self.py_files(*prefixes, exclude=exclude):
+            if rel in ("xonsh/parser_table.py", "xonsh/completion_parser_table.py"):
+                continue  # generated PLY tables, not source
+            if containing is not None and rel not in self._mods:
+                txt = self.read(rel)
+                if not any(c in txt for c in containing):
+                    continue
             yield self.module(rel)
 
 
